@@ -72,9 +72,8 @@ example :
     let v : Val := .tup [.atom 1, .tup [.atom 2, .atom 3]]
     let env : Env := fun x => if x = ⟨2, 0⟩ then some v else none
     v.HasShape T ∧ env ⟨2, 0⟩ = some v ∧
-    (match getitem (setitem Locals.empty 5 [7] false ⟨2, 0⟩ T).1 7 [7] T with
-      | .ok r => r.2.2.2 = [.make 7 [⟨6, 0⟩, ⟨6, 1⟩], .make 8 [⟨5, 0⟩, ⟨7, 0⟩]] ∧ r.1 = ⟨8, 0⟩
-      | .error _ => False) := by
+    okAnd (getitem (setitem Locals.empty 5 [7] false ⟨2, 0⟩ T).1 7 [7] T) (fun r =>
+      decide (r.2.2.2 = [.make 7 [⟨6, 0⟩, ⟨6, 1⟩], .make 8 [⟨5, 0⟩, ⟨7, 0⟩]] ∧ r.1 = ⟨8, 0⟩)) = true := by
   refine ⟨by simp [Val.HasShape, HasShapes], by simp, by decide⟩
 
 /-- **C01 (each leaf consumed once, linear places forgotten)**: read a struct/tuple place that
@@ -112,7 +111,7 @@ theorem linear_leaf_once (k : Kind) (cs : List Ty) (L : Locals) (n : Nat) (p : P
     have hmem : x ∈ leafWires L p (.node k cs) := by
       simp only [leafWires, List.mem_filterMap]
       exact ⟨sub p s, sub_mem_places s _ p _ hat, hx⟩
-    have hcount : (leafWires L p (.node k cs)).count x = 1 := List.count_eq_one_of_mem hnd hmem
+    have hcount : (leafWires L p (.node k cs)).count x = 1 := by rw [hnd.count]; simp [hmem]
     have hprod : (produced ops).count x = 0 :=
       List.count_eq_zero.mpr (fun hm => by have := (c2 x hm).1; omega)
     have hres : [w'].count x = 0 := by
@@ -139,10 +138,9 @@ example :
       .node .tuple [.leaf false false, .leaf true true]]
     let L := (setitem Locals.empty 5 [7] false ⟨2, 0⟩ T).1
     (leafWires L [7] T).Nodup ∧ leafWires L [7] T = [⟨5, 0⟩, ⟨5, 1⟩, ⟨6, 0⟩, ⟨6, 1⟩] ∧
-    (match getitem L 7 [7] T with
-      | .ok r => consumed r.2.2.2 = [⟨6, 0⟩, ⟨6, 1⟩, ⟨5, 0⟩, ⟨5, 1⟩, ⟨7, 0⟩] ∧
-          (places [7] T).map r.2.1 = [some ⟨8, 0⟩, none, some ⟨5, 1⟩, none, none, some ⟨6, 1⟩]
-      | .error _ => False) := by
+    okAnd (getitem L 7 [7] T) (fun r =>
+      decide (consumed r.2.2.2 = [⟨6, 0⟩, ⟨6, 1⟩, ⟨5, 0⟩, ⟨5, 1⟩, ⟨7, 0⟩] ∧
+        (places [7] T).map r.2.1 = [some ⟨8, 0⟩, none, some ⟨5, 1⟩, none, none, some ⟨6, 1⟩])) = true := by
   decide
 
 /-- **C01 (no stale packed value, repair 32e45a7)**: pack a struct (caching its wire), assign a
@@ -167,13 +165,10 @@ theorem setitem_invalidates_enclosing (t : Ty) (L : Locals) (n : Nat) (p : Place
 example :
     let S : Ty := .node .struct [.leaf false false, .leaf true true]
     let L0 := (setitem Locals.empty 5 [7] false ⟨2, 0⟩ S).1
-    (match getitem L0 6 [7] S with
-      | .ok r1 =>
-        r1.1 = ⟨6, 0⟩ ∧
-        (match getitem (setitem r1.2.1 10 [0, 7] false ⟨9, 0⟩ (.leaf false false)).1 10 [7] S with
-          | .ok r2 => r2.2.2.2 = [.make 10 [⟨9, 0⟩, ⟨5, 1⟩]] ∧ r2.1 = ⟨10, 0⟩
-          | .error _ => False)
-      | .error _ => False) := by
+    okAnd (getitem L0 6 [7] S) (fun r1 =>
+      decide (r1.1 = ⟨6, 0⟩) &&
+      okAnd (getitem (setitem r1.2.1 10 [0, 7] false ⟨9, 0⟩ (.leaf false false)).1 10 [7] S)
+        (fun r2 => decide (r2.2.2.2 = [.make 10 [⟨9, 0⟩, ⟨5, 1⟩]] ∧ r2.1 = ⟨10, 0⟩))) = true := by
   decide
 
 end GuppyVerif.Wiring
